@@ -79,8 +79,9 @@ _LABEL_SNIPPETS = {
     "deficit_partly": "excess_reserved[largest.inverter_ids] = 0.0",
     "greedy": "power.power += additional_power",
     "multi_inverter": "remaining_power = power.power",
-    "split_skip": "new_distribution[inverter_id] = 0.0",
+    "split_skip": "set_points[inverter_id] = 0.0",
     "supply": "result.remaining_power *= -1",
+    "set_unused": "set_points = dict.fromkeys(set_points, 0.0)",
 }
 _label_lines: dict[int, str] | None = None
 _alg_file = None
@@ -194,6 +195,24 @@ def advertised(case):
     return lo, hi
 
 
+def enforced_excl(case):
+    """(excl_lower, excl_upper) BatteryManager._get_bounds/_check_request ENFORCE: the larger of the summed battery
+    exclusion bounds and the summed inverter exclusion bounds (over the whole request, not per group)"""
+    aggs = [agg(g) for g in case["groups"]]
+    invs = [i for g in case["groups"] for i in g["invs"]]
+    return (min(sum(a["el"] for a in aggs), sum(fr(i["el"]) for i in invs)),
+            max(sum(a["eu"] for a in aggs), sum(fr(i["eu"]) for i in invs)))
+
+
+def in_enforced_advertised_band(case) -> bool:
+    """the request passes the enforced exclusion bound but lies inside the advertised exclusion zone:
+    outside C01/C02's domain, kept in the correspondence stream on purpose"""
+    p = fr(case["power"])
+    elo, ehi = enforced_excl(case)
+    alo, ahi = advertised(case)
+    return (p > 0 and ehi <= p < ahi) or (p < 0 and alo < p <= elo)
+
+
 def group_dir(g, supply):
     """(min_power, incl_bound, battery excl, battery incl, [(id, excl, incl)]) in the request's direction, as magnitudes"""
     a = agg(g)
@@ -291,27 +310,6 @@ def clauses(case, obs):
     return out
 
 
-# ----------------------------------------------------------------------------- known-finding triggers (narrow predicates)
-def split_leftover_groups(case, obs):
-    """Trigger of known finding C02-split-leftover, judged on input + observed set-points only:
-    groups with >= 2 inverters in which the greedy split could not place more power -- every inverter
-    ends at its (battery-clipped) inclusion bound or at zero with a positive exclusion bound -- and whose
-    resulting total is non-zero but below the aggregated battery exclusion bound."""
-    p = fr(case["power"])
-    out = set()
-    dist = {k: fr(v) for k, v in obs["dist"]} if obs.get("dist") else {}
-    for gi, g in enumerate(case["groups"]):
-        if len(g["invs"]) < 2:
-            continue
-        m, u, bex, bin_, invs = group_dir(g, p < 0)
-        got = [(abs(dist.get(i, F(0))), ex, inc) for i, ex, inc in invs]
-        tot = sum(x for x, _, _ in got)
-        stuck = all(abs(x - inc) <= TOL or (x == 0 and ex > 0) for x, ex, inc in got)
-        if stuck and TOL < tot < bex:
-            out.add(gi)
-    return out
-
-
 # ----------------------------------------------------------------------------- generation
 CAPS = [1, 2, 5, 10, 10, 100]
 EXCL = [0, 0, 0, 10, 25, 50, 100]
@@ -392,6 +390,11 @@ def requests_for(case_groups):
     iu = sum(group_dir(g, False)[1] for g in case_groups)
     il = -sum(group_dir(g, True)[1] for g in case_groups)
     out = []
+    elo, ehi = enforced_excl(c)
+    if ehi < hi:      # band between the enforced and the advertised exclusion bound (not admitted; model fidelity)
+        out += [ehi, (ehi + hi) / 2]
+    if lo < elo:
+        out += [elo, (elo + lo) / 2]
     if hi <= iu and iu > 0:
         out += [hi, iu, (hi + iu) / 2, (2 * hi + iu) / 3, hi + 1, iu + 50, iu + F(1, 3), max(iu - 1, hi)]
     else:
@@ -443,6 +446,12 @@ def boundary_cases():
     out.append({"groups": [{"bats": [B(1, 10, 50, 0, 100, -200, 0, 0, 200)], "invs": [I(2, -100, 0, 0, 100)]}], "power": 250, "exp": 1})
     # tiny request (treated as zero by the code)
     out.append({**out[-1], "power": [1, 10 ** 10]})
+    # between the enforced exclusion bound max(sum bat, sum inv) = 10 and the advertised one sum max(bat, sum inv) = 20:
+    # the minimum powers (10 + 10) exceed the request (outside the property's domain; correspondence only)
+    band = [{"bats": [B(1, 10, 50, 0, 100, -200, -10, 10, 200)], "invs": [I(2, -200, 0, 0, 200)]},
+            {"bats": [B(3, 10, 50, 0, 100, -200, 0, 0, 200)], "invs": [I(4, -200, -10, 10, 200)]}]
+    for pw in (10, 15, -10, -15, 20):
+        out.append({"groups": band, "power": pw, "exp": 1})
     # total capacity below the code's zero tolerance: ValueError
     out.append({"groups": [{"bats": [B(1, [1, 10 ** 10], 50, 0, 100, -200, 0, 0, 200)], "invs": [I(2, -100, 0, 0, 100)]}], "power": 50, "exp": 1})
     return out
@@ -495,19 +504,15 @@ def c_groups(case):
 
 HEADER = """From Verif Require Import model.Dist.
 Open Scope Q_scope.
-(* case: groups, integer exponent, request, "the case lies in the property's domain",
-   expected outcome: None = ValueError, Some (set-points sorted by inverter id, remainder, distributed).
-   Besides equality of the outputs, the two run-time side conditions of the *_partial theorems
-   (no negative excess after an approximate cover, non-negative left-over before the greedy top-up)
-   are required to hold on every in-domain case. *)
-Definition check (c : list group * nat * Q * bool * option (list (Z * Q) * Q * Q)) : bool :=
-  let '(gs, e, p, dom, exp) := c in
+(* case: groups, integer exponent, request,
+   expected outcome: None = ValueError, Some (set-points sorted by inverter id, remainder, distributed) *)
+Definition check (c : list group * nat * Q * option (list (Z * Q) * Q * Q)) : bool :=
+  let '(gs, e, p, exp) := c in
   match run_request (fun x => Qpower x (Z.of_nat e)) gs p, exp with
   | None, None => true
   | Some r, Some (d, rem, dd) =>
       list_eqb (fun a b => Z.eqb (fst a) (fst b) && Qeq_bool (snd a) (snd b)) (sort_by_id (res_dist (rr_res r))) d
       && Qeq_bool (res_rem (rr_res r)) rem && Qeq_bool (res_distributed r) dd
-      && (negb dom || negb (has_label LNegExcess (rr_res r) || has_label LNegLeftover (rr_res r)))
   | _, _ => false
   end.
 """
@@ -519,8 +524,7 @@ def case_term(case, obs):
     else:
         d = "[" + "; ".join(f"(({cZ(k)})%Z, {cQ(v)})" for k, v in obs["dist"]) + "]"
         exp = f"(Some ({d}, {cQ(obs['rem'])}, {cQ(obs['distributed'])}))"
-    dom = "true" if in_domain(case) else "false"
-    return f"({c_groups(case)}, {int(case['exp'])}%nat, {cQ(case['power'])}, {dom}, {exp})"
+    return f"({c_groups(case)}, {int(case['exp'])}%nat, {cQ(case['power'])}, {exp})"
 
 
 def show_term(case):
@@ -571,6 +575,10 @@ class DistStream(Stream):
     def labels(self, case, obs):
         out = [f"groups={len(case['groups'])}", f"exp={case['exp']}", "supply" if fr(case["power"]) < 0 else "consume"]
         out.append("in_domain" if in_domain(case) else "outside_domain")
+        if in_enforced_advertised_band(case):
+            out.append("request_between_enforced_and_advertised_excl")
+            if obs["rem"] is not None and fr(obs["rem"]) * fr(case["power"]) < 0:
+                out.append("band:remainder_with_opposite_sign")
         out += [f"branch:{lb}" for lb in obs.get("labels", [])]
         if obs["err"]:
             out.append("error:" + obs["err"])
@@ -605,4 +613,5 @@ class FloatStream(DistStream):
         return None
 
     def labels(self, case, obs):
-        return [f"exp={case['exp']}", "in_domain" if in_domain(case) else "outside_domain"] + [f"branch:{lb}" for lb in obs.get("labels", [])]
+        band = ["request_between_enforced_and_advertised_excl"] if in_enforced_advertised_band(case) else []
+        return [f"exp={case['exp']}", "in_domain" if in_domain(case) else "outside_domain"] + band + [f"branch:{lb}" for lb in obs.get("labels", [])]
